@@ -615,6 +615,8 @@ def gen_case(rng):
     t = rc.table()
     plain = [x for x in cl["current"] if not ("." in x and x[:x.rfind(".")] in t)]
     pool = rng.sample(plain, 3) + rng.sample(cl["licref"], 1) + ["MIT", "0BSD"]
+    if rng.random() < 0.2:
+        pool.append(rng.choice(cl["licreflike"]))       # an ill-formed LicenseRef- look-alike, used like any other identifier
     flags = rng.choice(["00", "00", "01", "10"])
     glob = rng.choice(["none", "toml", "toml", "toml", "dep5"])
     tree = []
@@ -726,7 +728,9 @@ def gen_case(rng):
         names = []
         for x in used:
             if not (x in t or rc.is_licref(x)):
-                continue
+                # not a valid identifier: its text is provided all the same three times out of four (it stays a bad licence)
+                if not (x in cl["licreflike"] and rng.random() < 0.75):
+                    continue
             name = x + rng.choice([".txt", ".txt", ".md"])
             r = rng.random()
             if r < 0.15:
@@ -747,7 +751,7 @@ def gen_case(rng):
             elif k < 0.45:
                 names.append(rng.choice(plain + cl["exception"]) + ".txt")
             elif k < 0.55:
-                names.append(rng.choice(cl["unknown"] + cl["wrongcase"]) + ".txt")
+                names.append(rng.choice(cl["unknown"] + cl["wrongcase"] + cl["licreflike"] + rc.LICREF_LIKE_NAMES) + ".txt")
             elif k < 0.65:
                 names.append(rng.choice(plain))
             elif k < 0.75:
@@ -787,7 +791,9 @@ class E2EModelStream(Stream):
             "binaries; .license siblings: full / partial / empty / a directory / a dangling symlink; excluded names and directories, empty "
             "files, symlinks; nested REUSE.toml files with 1-4 tables, 10 glob shapes relative to their own directory, the three "
             "precedences, string / list / empty-string copyright values, empty / broken / symlinked / excluded REUSE.toml; .reuse/dep5 with "
-            "1-3 paragraphs; LICENSES/ with sub-directories, hidden files and directories, .license companions and 7 kinds of disturbance) "
+            "1-3 paragraphs; one project in five uses an ill-formed LicenseRef- look-alike (underscore, non-ASCII, colon, empty tail) like any "
+            "other identifier, its text provided three times out of four; LICENSES/ with sub-directories, hidden files and directories, "
+            ".license companions and 7 kinds of disturbance) "
             "written to disk for the real `reuse lint --json` and serialised for the composed Lean model (driver op `e2e`, two rounds: "
             "license-expression, tomlkit, python-debian and binaryornot answer as oracle tables); compared: status, file list, per-file "
             "copyright lines / expressions with their source, the eight collections, used licences, verdict and exit status; oracle = "
